@@ -243,12 +243,12 @@ func c09Run(raw json.RawMessage) (res Result, err error) {
 		cq.F("k_state", cq.List(state)), cq.F("k_code", cq.Nat(o.Code)), cq.F("k_out", cq.Hex(o.Out)))
 
 	// ---- finding classes: executable mirrors of the Coq guards, decided PER WRITTEN ROW on the input
-	// (real TimeToIndex / GetIntervalTicks32Bit / GetTimeFromTicks), plus the recorded block lengths for F4
+	// (real TimeToIndex / GetIntervalTicks32Bit / GetTimeFromTicks)
 	step := (int64(tf) + 4294967295) / 4294967296
 	type wr struct {
 		t, q             time.Time // written time; the time the codec quantises it to (in its OWN interval)
 		pay              string
-		late, idx0, misf bool // F1 row, F2 row, F3 row (merged into another year's command)
+		late, idx0, misf bool // outside C10's bound (finding F1, fixed: never excused); F2 row; F3 row (merged into another year's command)
 	}
 	var written []wr
 	f1, f2, f3 := false, false, false
@@ -277,33 +277,11 @@ func c09Run(raw json.RawMessage) (res Result, err error) {
 			written = append(written, x)
 		}
 	}
-	f4 := false
-	for _, f := range st.Files {
-		var total, cursor int64
-		for _, sl := range f.Slots {
-			total += sl.Clen
-		}
-		total *= 4
-		for _, sl := range f.Slots {
-			l := int64(len(sl.Recs)) * (st.Vrl + 8)
-			if cursor+l > total {
-				if cursor > total {
-					f4 = true
-					break
-				}
-				total *= 2
-			}
-			cursor += l
-		}
-		if cursor > total {
-			f4 = true
-		}
-	}
 	fourH := in.Tf == "4H"
 
 	// ---- property oracle on the implementation's outputs.
-	// Part A (what no known finding excuses): the query succeeds unless 4H / F4; exactly the index-0 rows
-	// are missing; every row untouched by F1/F2/F3 is returned with its quantised time and its payload;
+	// Part A (what no known finding excuses): the query succeeds unless 4H; exactly the index-0 rows
+	// are missing; every row untouched by F2/F3 is returned with its quantised time and its payload;
 	// those rows appear in time order.  Part B: the full property.  A failure of A is never classified.
 	rl := int(st.Vrl) + 8
 	type rr struct {
@@ -327,8 +305,6 @@ func c09Run(raw json.RawMessage) (res Result, err error) {
 	switch {
 	case o.Code == 1 && fourH:
 		detailB = "the query over all time is rejected: " + o.Msg
-	case o.Code == 2 && f4:
-		detailB = "the query over all time panics: " + o.Msg
 	case o.Code != 0:
 		detailA = fmt.Sprintf("the query over all time failed (code %d): %s", o.Code, o.Msg)
 	case len(got) != len(written)-nIdx0:
@@ -336,7 +312,7 @@ func c09Run(raw json.RawMessage) (res Result, err error) {
 	default:
 		// clean rows: exact match on (quantised time, payload)
 		for _, w := range written {
-			if w.late || w.idx0 || w.misf {
+			if w.idx0 || w.misf {
 				continue
 			}
 			found := false
@@ -375,7 +351,7 @@ func c09Run(raw json.RawMessage) (res Result, err error) {
 			if detailB != "" {
 				break
 			}
-			if w.late || w.misf {
+			if w.misf {
 				detailB = fmt.Sprintf("record written at %s is returned at another time (quantised in its own interval: %s; interval %s, step %d ns)",
 					w.t.Format(time.RFC3339Nano), w.q.UTC().Format(time.RFC3339Nano), in.Tf, step)
 			}
@@ -389,21 +365,17 @@ func c09Run(raw json.RawMessage) (res Result, err error) {
 		switch {
 		case fourH:
 			res.Class = "timeframe-4H-looked-up-as-2H"
-		case o.Code == 2 && f4:
-			res.Class = "second-stage-buffer-too-small"
 		case f2:
 			res.Class = "daily-jan1-index0"
 		case f3:
 			res.Class = "cross-year-merge"
-		case f1:
-			res.Class = "decoded-second-rounded-up"
 		}
 	}
-	res.InDomain = !fourH && !f1 && !f2 && !f3 && !f4 && o.Code == 0
+	res.InDomain = !fourH && !f1 && !f2 && !f3 && o.Code == 0
 	res.Nontrivial = res.InDomain && nrows >= 2
 	res.Tags = append(res.Tags, fmt.Sprintf("rows=%d", bucket(nrows)), fmt.Sprintf("years=%d", len(st.Files)),
 		fmt.Sprintf("slots=%d", bucket(o.Slots)), fmt.Sprintf("code=%d", o.Code))
-	for name, b := range map[string]bool{"F1": f1, "F2": f2, "F3": f3, "F4": f4, "4H": fourH} {
+	for name, b := range map[string]bool{"outside-C10-bound": f1, "F2": f2, "F3": f3, "4H": fourH} {
 		if b {
 			res.Tags = append(res.Tags, name)
 		}
